@@ -8,6 +8,7 @@ from extract import pyexpr, classes
 
 ID = "C01"
 LEAN_TARGETS = ["MlVerif.Gen.C01", "MlVerif.Model.Params", "MlVerif.Lemmas.Params", "MlVerif.Lemmas.ParamsSpec",
+                "MlVerif.Lemmas.ParamsTransfer", "MlVerif.Lemmas.ParamsDict",
                 "MlVerif.Properties.C01"]
 PROPERTY_FILE = "MlVerif/Properties/C01.lean"
 DRIVER = "Drivers/C01.lean"
@@ -37,10 +38,12 @@ RULE = ("every in-scope class x a menu of constructor configurations (atoms, str
         "stacking lists of 1-15 members) x random op sequences over get_params(deep)/set_params(1-3 keys, advertised, nested, "
         "indexed, unknown)/clone; model and implementation are compared on canonical dumps + return values after every op. "
         "A case is non-trivial when the op changes or reads at least one parameter; distinct = (class, op kind, key shape)")
-LEVEL_TEXT = ("Lean proofs, for every nesting depth / list length / key: a single-key set_params on any advertised key returns self, "
-              "replaces exactly that slot (sub-keys re-derived), nested/indexed keys are routed by the extracted string arithmetic "
-              "to the right member for every index; clone is a fresh-id unfitted deep copy with equal parameters; all lifted over "
-              "op histories. The per-class storage table is regenerated from the source and decided.")
+LEVEL_TEXT = ("Lean proofs, for every nesting depth / list length / key and all six protocols: a single-key set_params on any "
+              "advertised key returns self and replaces exactly that slot (sub-keys re-derived); nested/indexed keys are routed by the "
+              "extracted string arithmetic to the right member for every index; feeding get_params(deep=True) of one instance to "
+              "another of the same shape makes it report the same parameters; clone is a fresh-id unfitted deep copy with equal "
+              "parameters; all lifted over op histories. The per-class storage table is regenerated from the source and decided. "
+              "Partial: 'behave identically' is tested (fit on fixed data), not proved.")
 LEVEL_NOTE = "scikit-learn's BaseEstimator and Python string semantics are transcribed, not verified; behaviour equality is tested only"
 TECHNIQUE = ("Lean 4 proof (induction over key length / estimator nesting / op lists) + AST-regenerated slice expressions, prefixes "
              "and per-class constructor-storage table + differential correspondence on op sequences")
@@ -771,7 +774,7 @@ def correspond(ctx):
             want = "%d %s" % (i, sub or "-") if i < 16 else "IndexError"
             cases.append(("route", "models_%d__%s" % (i, sub), want, None))
     # (3) histories
-    reps = ctx.pick(3, 14)
+    reps = ctx.pick(6, 40)
     max_ops = ctx.pick(12, 40)
     for n in names:
         if n not in cfg or n not in ns["cls"]:
@@ -1183,7 +1186,7 @@ def search(ctx, hints):
             vs.append(Violation("%s:not-importable" % n, "class of the table cannot be imported", {"class": n, "kind": "import"}))
             continue
         for ci, fac in enumerate(cfg[n]):
-            check_config(n, ci, fac, ns, rng, vs, stats, ctx.pick(6, 40), ctx)
+            check_config(n, ci, fac, ns, rng, vs, stats, ctx.pick(10, 60), ctx)
         k = len(cfg[n])
         for i in range(k):
             for j in range(k):
@@ -1195,7 +1198,7 @@ def search(ctx, hints):
         if n not in cfg or n not in ns["cls"]:
             continue
         for ci, fac in enumerate(cfg[n]):
-            for rep in range(ctx.pick(1, 4)):
+            for rep in range(ctx.pick(2, 12)):
                 try:
                     o = fac()
                     o.get_params(deep=True)
